@@ -5,13 +5,14 @@ arbitrary points of a history: fresh, after fills, after merges, after a JSON
 reload.  The clone and the original then receive the same further operations
 (row fills, vector fills, merges) in lock step.
 """
+import json
 import pickle
 
 from .. import observe, spec as specmod
 from ..kernel import call, exc_site
 from .pool import PoolScenario
 
-QKINDS = [("lambda", 4), ("named", 2), ("def", 2), ("str", 3), ("cached", 2), ("cached_named", 1), ("selfc", 3), ("selfg", 2)]
+QKINDS = [("lambda", 4), ("named", 2), ("def", 2), ("str", 3), ("cached", 2), ("cached_named", 1), ("selfc", 3), ("selfg", 2), ("selfk", 3)]
 
 
 class C11(PoolScenario):
@@ -20,7 +21,7 @@ class C11(PoolScenario):
     profiles = ["ship-by-pickle"]
     budgets = {"quick": 16000, "thorough": 300000}
     wall_caps = {"quick": 110, "thorough": 1500}
-    ops = {"new": 1, "fill": 8, "fillnumpy": 2, "add": 2, "ship": 1, "clone": 4, "pair": 10}
+    ops = {"new": 1, "fill": 8, "fillnumpy": 2, "add": 2, "iadd": 1.5, "ship": 1.5, "clone": 4, "pair": 10}
     wires = ["json", "jsonstr"]
     regimes = ["dyadic", "dyadic", "awkward"]  # awkward: non-dyadic edges, values on and next to them (clone and original must still agree exactly)
     spec_opts = {"qkinds": QKINDS}
@@ -32,7 +33,7 @@ class C11(PoolScenario):
     assumptions = ["clone and original run the same arithmetic, so their observations are compared exactly",
                    "an operation that raises on the original must raise on the clone as well (and vice versa)"]
     expected_faults = ["ship_pickle"]
-    expected_probes = ["clone_after_merge", "clone_of_reloaded", "lockstep_fill", "lockstep_numpy", "string_quantity"]
+    expected_probes = ["clone_after_merge", "clone_of_reloaded", "lockstep_fill", "lockstep_numpy", "string_quantity", "clone_source_merged_in_place"]
 
     def gen_step(self, rng, ab, specs, recs, tier, si):
         out = super().gen_step(rng, ab, specs, recs, tier, si)
@@ -82,6 +83,14 @@ class C11(PoolScenario):
                                  "toJson after %s: original %s, clone %s" % (what, da.describe(), db.describe()), si)
         if not da.ok:
             return
+        if da.value == db.value:
+            # "identical serialised content": also the spelling of the numbers (6 is not 6.0 in a JSON text)
+            ta, tb = call(lambda: json.dumps(a.toJson(), sort_keys=True)), call(lambda: json.dumps(b.toJson(), sort_keys=True))
+            if ta.ok and tb.ok and ta.value != tb.value:
+                i = next((k for k, (x, y) in enumerate(zip(ta.value, tb.value)) if x != y), 0)
+                raise self.violation(getattr(a, "name", "?"), what, "replica-diverged:json-text",
+                                     "after %s the original and its pickle clone serialise to different texts: ...%s... vs ...%s..." % (
+                                         what, ta.value[max(0, i - 30): i + 20], tb.value[max(0, i - 30): i + 20]), si)
         if da.value != db.value:
             d = observe.doc_diff(da.value, db.value) or ([], "?", "?")
             raise self.violation(d[1], what, "replica-diverged:%s" % d[2],
@@ -229,6 +238,12 @@ class C11(PoolScenario):
                         w.bump("probe_fill_of_immutable_refused")
                     w.meta[tgt]["fills"] = w.meta[tgt].get("fills", 0) + 1
                     w.meta[tgt]["version"] = w.meta[tgt].get("version", 0) + 1
+                elif op == "iadd":
+                    # the target changed on its own: earlier clones no longer mirror it (a later clone does)
+                    w.meta[tgt]["version"] = w.meta[tgt].get("version", 0) + 1
+                    if o.ok:
+                        w.meta[tgt]["fills"] = w.meta[tgt].get("fills", 0) + w.meta.get(st["r"], {}).get("fills", 0)
+                        w.bump("probe_clone_source_merged_in_place")
                 elif op == "add" and o.ok:
                     w.meta[st["out"]]["fills"] = w.meta[st["l"]].get("fills", 0) + w.meta[st["r"]].get("fills", 0)
                 elif op == "ship" and o.ok:
